@@ -27,6 +27,19 @@ func frame(text []byte) []byte {
 var allFormats = []byte{0o00, 0o10, 0o11, 0o20, 0o30, 0o31, 0o32, 0o34, 0o40, 0o44, 0o50, 0o51, 0o52, 0o54, 0o12, 0o77}
 
 func hostileHsms(r *rand.Rand, thorough bool, emit func(kind string, in []byte)) {
+	// every kind of header in front of well-formed and empty texts: wait bit on even and odd functions, stream
+	// with and without the top bit, every PType/SType pair of the control messages and a few undefined ones
+	for _, b2 := range []byte{0x00, 0x01, 0x7f, 0x80, 0x81, 0xff} {
+		for _, fn := range []byte{0, 1, 2, 3, 254, 255} {
+			for _, ps := range [][2]byte{{0, 0}, {0, 1}, {0, 2}, {0, 5}, {0, 6}, {0, 9}, {0, 7}, {0, 10}, {1, 0}, {1, 1}, {255, 255}} {
+				for _, text := range [][]byte{nil, {0xa5, 1, 7}, {1, 1, 0x41, 2, 'o', 'k'}, {0x41}} {
+					n := len(text) + 10
+					in := []byte{byte(n >> 24), byte(n >> 16), byte(n >> 8), byte(n), 0x12, 0x34, b2, fn, ps[0], ps[1], 9, 8, 7, 6}
+					emit("header-grid", append(in, text...))
+				}
+			}
+		}
+	}
 	// short inputs declaring huge lengths, at every nesting depth
 	for depth := 0; depth <= 8; depth++ {
 		for _, f := range allFormats {
